@@ -14,6 +14,11 @@ import (
 //   - units that precede this origin are dropped, never delivered with negative time;
 //   - AbsoluteTime = the segment's EXT-X-PROGRAM-DATE-TIME plus the unit's offset from that
 //     segment's first leading-track unit.
+// "The stream's supported tracks": StreamDesc.Tracks, i.e. the H264 / MPEG-4 audio (fMP4: also
+// Opus) tracks in PMT / init order; a MPEG-TS PMT may list other elementary streams anywhere
+// (StreamDesc.Unsup, with or without PES data): they are not reported, they do not take part in
+// the choice of the leading track ("the video track if any, else the first" of the supported
+// ones), and a callback carrying one of their PES is an unexpected unit.
 // "Expressed in the track's clock rate" is an integer: where origin*rate/leadingRate is not
 // an integer the oracle accepts either neighbouring tick (and any decision for a unit that
 // precedes the origin by less than one tick), but requires one and the same shift for all
